@@ -432,6 +432,7 @@ func checkMain(args []string) {
 	// ---- evidence ----
 	var fnsEv []map[string]interface{}
 	trusted := map[string]bool{}
+	calleeUsed := map[string]bool{}
 	for _, rep := range reps {
 		n, d := 0, 0
 		for _, o := range rep.Obs {
@@ -446,6 +447,50 @@ func checkMain(args []string) {
 		fnsEv = append(fnsEv, map[string]interface{}{"function": rep.Key, "at": rep.File, "status": rep.Status, "reason": rep.Reason, "obligations": n, "discharged": d, "loops": rep.NLoops})
 		for _, t := range rep.Trusted {
 			trusted[t] = true
+		}
+		for _, c := range rep.Callees {
+			calleeUsed[c] = true
+		}
+	}
+	// contracts of go-res functions applied at call sites whose bodies are not verified in this run:
+	// verified under another claimed property, or assumed (callbacks are client code by definition)
+	verifiedHere := map[string]bool{}
+	for _, rep := range reps {
+		verifiedHere[rep.Key] = true
+	}
+	elsewhere := map[string]string{}
+	if ents, err := os.ReadDir(filepath.Join(verif, "specs")); err == nil {
+		for _, en := range ents {
+			if !strings.HasSuffix(en.Name(), ".json") || en.Name() == "manifest_src.json" || en.Name() == id+".json" {
+				continue
+			}
+			var other PropSpec
+			if loadJSON(filepath.Join(verif, "specs", en.Name()), &other) == nil {
+				for _, f := range other.Functions {
+					if _, ok := elsewhere[f]; !ok {
+						elsewhere[f] = other.ID
+					}
+				}
+			}
+		}
+	}
+	var calleeEv []map[string]string
+	var calleeKeys []string
+	for c := range calleeUsed {
+		calleeKeys = append(calleeKeys, c)
+	}
+	sort.Strings(calleeKeys)
+	for _, c := range calleeKeys {
+		if verifiedHere[c] {
+			continue
+		}
+		switch {
+		case strings.HasPrefix(c, "callback."):
+			calleeEv = append(calleeEv, map[string]string{"contract": c, "status": "assumed: client code behind a callback contract"})
+		case elsewhere[c] != "":
+			calleeEv = append(calleeEv, map[string]string{"contract": c, "status": "body verified under " + elsewhere[c]})
+		default:
+			calleeEv = append(calleeEv, map[string]string{"contract": c, "status": "ASSUMED: the body of this go-res function is not verified by any check"})
 		}
 	}
 	var tb []string
@@ -482,7 +527,7 @@ func checkMain(args []string) {
 			"functions_under_contract": fnsEv,
 			"by_backend":               bbEv, "slowest": slowest, "samples": samples,
 			"canaries":  map[string]int{"planted": nCanary, "shown_reachable": nCanaryReach},
-			"undecided": undecidedFns, "bounded": bounded, "scenarios_run": scen, "undecided_fallback_rac": fallback,
+			"undecided": undecidedFns, "bounded": bounded, "scenarios_run": scen, "callee_contracts_not_verified_here": calleeEv, "undecided_fallback_rac": fallback,
 			"known_findings_hit": knownHit, "open_findings_not_counted_as_obligations": len(knownHit), "not_decided": ps.NotDecided, "decided_under_another_property": decidedElsewhere,
 			"load_secs": tLoad, "solver_timeout_s": secs,
 			"contract_files": w.Specs.Files,
